@@ -663,7 +663,7 @@ def main():
   rem = run.seed % mod
   # 1. TLC: the design (all pairs of the bounds) and the export of the signatures, side by side
   # with nothing else (the replay needs the export first).
-  with cf.ThreadPoolExecutor(max_workers=7) as ex:
+  with cf.ThreadPoolExecutor(max_workers=8) as ex:
     jm = ex.submit(tlc.run, "ArgBind", model_cfg(n, maxpos, maxkw, True), workers=6 if thorough else 4,
                    timeout=3000, seed=run.seed)
     je = ex.submit(tlc.run, "ArgBind", model_cfg(n, maxpos, maxkw, True, mod, rem, export=True),
@@ -680,11 +680,13 @@ def main():
     hlaws = 2 if thorough else 1
     hpos, hkw = 3, 2
     jh = ex.submit(tlc.run, "ArgBind", model_cfg(*hmach[:4], maxredef=hmach[4]),
-                   workers=6 if thorough else 2, timeout=6000, seed=run.seed)
+                   workers=6 if thorough else 2, timeout=6000, seed=run.seed, heap="6g" if thorough else "2g")
     jl = ex.submit(tlc.run, "ArgBind", model_cfg(n, hpos, hkw, True, export="laws", maxredef=hlaws),
-                   workers=4 if thorough else 2, timeout=6000, seed=run.seed)
-    jhe = ex.submit(tlc.run, "ArgBind", model_cfg(n, hpos, hkw, True, mod, rem, export="hists", maxredef=1),
-                    workers=1, timeout=3000, seed=run.seed, heap="4g")
+                   workers=4 if thorough else 2, timeout=6000, seed=run.seed, heap="2g")
+    # (two JVMs, each half of the seeded class: SigIndex % 2mod in {rem, rem + mod})
+    jhe = [ex.submit(tlc.run, "ArgBind", model_cfg(n, hpos, hkw, True, 2 * mod, rem + half * mod,
+                                                   export="hists", maxredef=1),
+                     workers=1, timeout=3000, seed=run.seed, heap="3g") for half in (0, 1)]
     r = je.result()
     common.require(r.ok and not r.violated, "ArgBind export failed:\n" + r.out[-2000:])
     run.add("tlc_export_wall_s", round(r.wall, 1))
@@ -720,12 +722,18 @@ def main():
     # histories: define, call*, re-assign the defaults, call* on a seeded choice of histories of
     # every exported definition (thorough: more per definition, and two re-assignments for the
     # seeded class SigIndex % 8)
-    rh = jhe.result()
-    common.require(rh.ok and not rh.violated, "ArgBind history export failed:\n" + rh.out[-2000:])
-    run.add("tlc_export_wall_s", round(rh.wall, 1))
-    run.put("histories_exported", len(rh.cases))
+    hcases = []
+    for job in jhe:
+      rh = job.result()
+      common.require(rh.ok and not rh.violated, "ArgBind history export failed:\n" + rh.out[-2000:])
+      run.add("tlc_export_wall_s", round(rh.wall, 1))
+      hcases += rh.cases
+    run.put("histories_exported", len(hcases))
+    known_sigs = {sig_text(sg) for sg, _ in sigs}
+    common.require(hcases and all(sig_text(canon_sig(h["sig"])) in known_sigs for h in hcases),
+                   "the history export is not over the exported signatures")
     base_calls = {sig_text(sg): cs for sg, cs in sigs}
-    hitems = history_items(run, rng, rh.cases, base_calls, (2, 1, 1) if thorough else (1, 1, 1), 1, maxpos)
+    hitems = history_items(run, rng, hcases, base_calls, (2, 1, 1) if thorough else (1, 1, 1), 1, maxpos)
     if thorough:
       r2 = tlc.run("ArgBind", model_cfg(n, hpos, hkw, True, 8, run.seed % 8, export="hists", maxredef=2),
                    workers=1, timeout=3000, seed=run.seed, heap="6g")
